@@ -30,6 +30,9 @@ type Case struct {
 	Workers int      `json:"workers,omitempty"`
 	// Interleave: l0 l1 l2 l0 l1 l2 ... instead of l0 l0 ... l1 l1 ...
 	Interleave bool `json:"interleave,omitempty"`
+	// Sources > 1: the lines are dealt round-robin to that many inputs, one line per batch, so that
+	// consecutive batches carry the SAME line number from different sources (what several files give)
+	Sources int `json:"sources,omitempty"`
 	// expr: rare expression -k key=value ... -d data ...
 	Keys [][2]string `json:"keys_b64,omitempty"` // name (plain), value (base64)
 	Data []string    `json:"data_b64,omitempty"`
@@ -212,6 +215,30 @@ func runExt(cs *Case, view string, lines [][]byte) ([][]string, error) {
 	if err != nil {
 		close(ch)
 		return nil, err
+	}
+	nsrc := max(cs.Sources, 1)
+	if nsrc > 1 {
+		go func() {
+			for p := range order {
+				ch <- extractor.InputBatch{Batch: []extractor.BString{lines[order[p]]}, Source: fmt.Sprintf("c16-%d", p%nsrc), BatchStart: uint64(p/nsrc + 1)}
+			}
+			close(ch)
+		}()
+		outs := make([][]string, len(lines))
+		for mb := range ext.ReadChan() {
+			for _, m := range mb {
+				var si int
+				if _, err := fmt.Sscanf(m.Source, "c16-%d", &si); err != nil || si < 0 || si >= nsrc {
+					return nil, fmt.Errorf("match with unknown source %q", m.Source)
+				}
+				p := (int(m.LineNumber)-1)*nsrc + si
+				if p < 0 || p >= len(order) {
+					return nil, fmt.Errorf("match with source %s line %d out of range", m.Source, m.LineNumber)
+				}
+				outs[order[p]] = append(outs[order[p]], strings.Clone(m.Extracted))
+			}
+		}
+		return outs, nil
 	}
 	go func() {
 		for s := 0; s < len(order); s += batch {
